@@ -7,41 +7,52 @@ ENTRY = {'coq_dir': 'C10',
             'SCORE_CONNECTION_FAILURE_NEG',
             'SCORE_ADDRESS_FAILURE_NEG',
             'SCORE_PUBLIC_ADDRESS_BONUS'],
- 'rule': 'seeded random cases: a configuration (enabled transports tcp/ws, 0-3 listen addresses incl. 0.0.0.0/::/loopback) and a history '
-         'of 6-220 (quick) / 50-400 (thorough) operations over <=8 peers on real Multiaddrs built from abstract shapes (ip4/ip6 of class '
+ 'rule': 'seeded random cases: a configuration (installed scripted transports tcp/ws, max_outgoing_connections none or 0..8) and a history of 6-220 '
+         '(quick) / 50-400 (thorough) operations over <=8 peers on real Multiaddrs built from abstract shapes (ip4/ip6 of class '
          'unspecified/loopback/private/global, dns/dns4/dns6, tcp/udp, ws/wss/quic-v1, right/foreign/missing/duplicate /p2p, '
-         'inserted/deleted/swapped/trailing components): add_known_address with one or several addresses, dial failures (connection and '
-         "address errors) and established connections through the manager's update functions, addresses(limit) as used by dial(peer), and "
-         'stateless probes (supported_transport, routing, TCP and WebSocket multiaddr_to_socket_address); half of the long cases push >64 '
-         "distinct addresses into one peer's store. After every operation the result and the full sorted (address, score) dump of the "
-         "touched store are compared with the extracted Coq model; the implementation's own choices (evicted record, order among equal "
-         'scores) are inputs that the model validates. A case is non-trivial when its trace has >= 8 numbers; distinct = distinct (case, '
-         'trace) pairs',
- 'trusted_base': ['abstract multiaddress grammar: IPs are a class (unspecified/loopback/private/global) plus an id; the harness maps '
-                  "classes to real ranges (127.1/16, 10.7/16, 8.8/16, ::, ::1, fd00::7:x, 2001:4860::x) so ip_network's is_global and "
-                  "std's is_loopback/is_unspecified are exercised, but only on these ranges",
+         'inserted/deleted/swapped/trailing components): register_listen_address (at the start and in between), add_known_address with one or '
+         "several addresses (evictions included), dial failures (connection and address errors) and established connections through the manager's "
+         'update functions, AddressStore::addresses(limit), stateless probes (supported_transport, routing, TCP and WebSocket '
+         'multiaddr_to_socket_address), holding 0..8 established outbound connections to other peers, and whole TransportManager::dial(peer) '
+         'episodes on scripted transports: the address lists handed to the TCP and WebSocket open() are recorded, then either every attempt times '
+         'out (OpenFailure on each transport) or one attempt succeeds after the earlier ones on its transport timed out (ConnectionOpened with '
+         "errors, ConnectionEstablished, accept, close); half of the long cases push >64 distinct addresses into one peer's store. After every "
+         'operation the result and the full sorted (address, score) dump of the touched store are compared with the extracted Coq model; the '
+         "implementation's own choices (HashSet insertion order of a multi-address add, evicted records as logged by AddressStore::insert, order "
+         'among equal scores, lists given to open()) are inputs that the model validates. A case is non-trivial when its trace has >= 8 numbers; '
+         'distinct = distinct (case, trace) pairs',
+ 'trusted_base': ['abstract multiaddress grammar: IPs are a class (unspecified/loopback/private/global) plus an id; the harness maps classes to real '
+                  "ranges (127.1/16, 10.7/16, 8.8/16, ::, ::1, fd00::7:x, 2001:4860::x) so ip_network's is_global and std's "
+                  'is_loopback/is_unspecified are exercised, but only on these ranges',
                   'a /p2p component always carries a valid peer id (type Protocol::P2p(PeerId) of multiaddr 0.18)',
-                  'the harness is built with litep2p features verif+websocket; quic is compiled out: the QUIC branch of '
-                  'supported_transport, the QUIC routing and quic::listener::get_socket_address are modelled and covered by the theorems '
-                  'but not exercised against the code',
-                  'dial(peer) itself is not driven: its address selection AddressStore::addresses(limit) and its routing function '
-                  'supported_transports_addresses are called through hooks; limit = free outbound capacity comes from ConnectionLimits '
-                  '(C06) and is an input here'],
- 'level_text': 'Proof: for every configuration, capacity and history (additions, dial failures/successes, rediscoveries, any eviction '
-               "choices) each peer's store holds at most MAX_ADDRESSES distinct addresses; everything add_known_address lets through is "
-               'unchanged, supported, not local and names the peer; every address accepted by supported_transport is, over the whole '
-               'component grammar, parsed by the enabled transport it is routed to with that peer id and a specified host; eviction '
-               'happens only at the bound and removes a minimal-score record not above the newcomer, a newcomer is refused only below the '
-               'minimum; dial results re-score exactly the address used; re-adding known addresses changes nothing; addresses(limit) is a '
-               "non-increasing top-min(limit,n) selection, and the validator applied to the implementation's observed selection is proved "
-               'sound and satisfiable. The model is tied to handle.rs/address.rs/mod.rs/listener.rs by a per-operation differential run '
-               'with store dumps.',
- 'level_note': 'Trusted: Coq kernel, ExtrOcamlBasic extraction, harness and hooks; IP classification only on the mapped ranges; QUIC paths '
-               'proved on the model but not diffed (feature off); dial(peer) not driven end to end (selection and routing functions are); '
-               'listen addresses are fixed during a history.',
- 'assumptions': ['dial results reported by transports concern addresses that were acceptable for that peer (taken from the store) - needed '
-                 'only for attribution of stored addresses, not for the bound',
-                 'listen addresses do not change during a history',
-                 'HashMap iteration order only influences the choice among minimal records and the order of equal scores (validated, not '
-                 'assumed)',
+                  'the harness is built with litep2p features verif+websocket; quic is compiled out: the QUIC branch of supported_transport, the '
+                  'QUIC routing and quic::listener::get_socket_address are modelled and covered by the theorems but not exercised against the code',
+                  "dial(peer) is driven end to end on the in-crate scripted transports (verif.rs); the harness does not call it when the peer's "
+                  'store holds an address of a transport that is not installed or one that does not name the peer (reachable only through ill-formed '
+                  "dial results; the manager would wedge the peer in Opening, which is C05's subject) - model and harness apply the same guard; "
+                  'every episode is driven to completion so that the peer is Disconnected again (asserted by the harness)',
+                  'two cfg(verif) logging statements inside add_known_address and AddressStore::insert record the HashSet iteration order and the '
+                  'evicted records (thread-local, add-only)'],
+ 'level_text': 'Proof: for every configuration, capacity and history (listen addresses registered at any time, additions with any insertion order '
+               "and eviction choices, dial failures/successes, rediscoveries, held connections, whole dial(peer) episodes) each peer's store holds "
+               'at most MAX_ADDRESSES distinct addresses; everything add_known_address lets through is unchanged, supported, not local w.r.t. the '
+               'listen addresses registered so far and names the peer, and is_local is monotone in the listen set, so every remembered address is '
+               'attributable, dialable and not local w.r.t. the listen addresses registered before the history; every address accepted by '
+               'supported_transport is, over the whole component grammar, parsed by the enabled transport it is routed to with that peer id and a '
+               'specified host; eviction happens only at the bound and removes a minimal-score record not above the newcomer, a newcomer is refused '
+               'only below the minimum; dial results re-score exactly the address used; re-adding known addresses changes nothing; addresses(limit) '
+               'is a non-increasing top-min(limit,n) selection and its validator is sound and satisfiable; when dial(peer) tries addresses, the '
+               'lists given to the transports merge into a valid addresses(limit) selection with limit = max_outgoing_connections minus established '
+               'outbound connections (everything when unlimited), each address goes to the installed transport it is routed to, and the outcome '
+               're-scores exactly the attempts made (failure score for timed-out ones, established score for the one that connected). The model is '
+               'tied to handle.rs/address.rs/mod.rs/limits.rs/listener.rs by a per-operation differential run with store dumps.',
+ 'level_note': 'Trusted: Coq kernel, ExtrOcamlBasic extraction, harness and hooks (incl. the scripted transport); IP classification only on the '
+               'mapped ranges; QUIC paths proved on the model but not diffed (feature off); dial(peer) is not called on stores it could wedge on '
+               '(guard, see trusted base); addresses stored through dial_address are outside the model.',
+ 'assumptions': ['dial results reported by transports outside dial(peer) episodes concern addresses that were acceptable for that peer (taken from '
+                 'the store) - needed only for attribution of stored addresses, not for the bound',
+                 'not-local is claimed with respect to the listen addresses registered before an address was offered (an address remembered earlier '
+                 'is not re-checked by the code when a listen address is registered later)',
+                 'HashMap/HashSet iteration order only influences the insertion order of one add_known_address call, the choice among minimal '
+                 'records and the order of equal scores (validated, not assumed)',
                  'usize/i32: scores saturate as i32 (modelled); lengths are unbounded naturals']}
